@@ -53,7 +53,15 @@ fn bases() -> Vec<(&'static str, SPDC)> {
   if let Ok(s) = SPDC::from_json(ppln.to_string()) {
     out.push(("ppln_type0_bartlett", s));
   }
+  // make every base config-exact (setup == try_as_spdc(as_config(setup))): a setup built afresh from a configuration can then be
+  // compared with a swept one
   out
+    .into_iter()
+    .map(|(n, s)| {
+      let rt = SPDCConfig::from(s.clone()).try_as_spdc().unwrap_or(s);
+      (n, rt)
+    })
+    .collect()
 }
 
 /// configuration as path -> value (numbers as bit patterns, everything else as JSON text)
@@ -198,6 +206,73 @@ fn readbacks(s: &SPDC) -> Value {
     "computed_sign": sg.map(|x| if x == Sign::POSITIVE { "POSITIVE" } else { "NEGATIVE" }), "pp": pp})
 }
 
+/// set one sweep path in a configuration JSON (the property's units; THz = 1e12 cycles per second)
+fn set_cfg_path(js: &mut Value, path: &str, v: f64) -> bool {
+  let (head, tail) = match path.split_once('.') {
+    Some(x) => x,
+    None => ("", path),
+  };
+  if head.is_empty() {
+    js[tail] = json!(v);
+    return true;
+  }
+  if head == "periodic_poling" {
+    if !js["periodic_poling"].is_object() {
+      js["periodic_poling"] = json!({});
+    }
+    js["periodic_poling"][tail] = json!(v);
+    return true;
+  }
+  if !js[head].is_object() {
+    return false;
+  }
+  match tail {
+    "theta_external_deg" => {
+      js[head]["theta_external_deg"] = json!(v);
+      js[head]["theta_deg"] = Value::Null;
+    }
+    "theta_deg" if head != "crystal" => {
+      js[head]["theta_deg"] = json!(v);
+      js[head]["theta_external_deg"] = Value::Null;
+    }
+    "frequency_thz" => {
+      js[head]["wavelength_nm"] = json!(299792458. / (v * 1e12) * 1e9);
+    }
+    _ => {
+      js[head][tail] = json!(v);
+    }
+  }
+  true
+}
+
+/// a setup constructed afresh: configuration of the base with the two values written into it -> try_as_spdc (Beam::new etc.,
+/// none of the sweep setters)
+fn fresh_from_config(base: &SPDC, p1: &str, v1: f64, p2: &str, v2: f64) -> Result<SPDC, String> {
+  let mut js = serde_json::to_value(SPDCConfig::from(base.clone())).map_err(|e| e.to_string())?;
+  if !(set_cfg_path(&mut js, p1, v1) && set_cfg_path(&mut js, p2, v2)) {
+    return Err("path".into());
+  }
+  let cfg: SPDCConfig = serde_json::from_value(js).map_err(|e| e.to_string())?;
+  cfg.try_as_spdc().map_err(|e| e.0)
+}
+
+/// direction-dependent observables of a setup at its own centre frequencies
+fn observables(s: &SPDC) -> Value {
+  let s1 = s.clone();
+  let dk = guarded(move || {
+    let k = s1.delta_k(s1.signal.frequency(), s1.idler.frequency());
+    let v = *(k * M / RAD);
+    [v.x, v.y, v.z]
+  });
+  let s2 = s.clone();
+  let j = guarded(move || jsi_of(&s2));
+  let sign = match &s.pp {
+    PeriodicPoling::Off => "Off",
+    PeriodicPoling::On { sign, .. } => if *sign == Sign::POSITIVE { "POSITIVE" } else { "NEGATIVE" },
+  };
+  json!({"delta_k": dk.ok().map(|d| fxs(&d)), "jsi": j.ok().map(fx), "pp_sign": sign})
+}
+
 fn jsi_of(spdc: &SPDC) -> f64 {
   // the expression of SPDCIter::jsi_values, on one setup
   let jsi = jsa_raw(spdc.signal.frequency(), spdc.idler.frequency(), spdc, Integrator::default()).norm_sqr();
@@ -210,7 +285,7 @@ fn jsi_of(spdc: &SPDC) -> f64 {
 
 fn values_for(path: &str, rng: &mut Rng, n: usize) -> Vec<f64> {
   let (lo, hi, fixed): (f64, f64, Vec<f64>) = if path.ends_with("theta_external_deg") {
-    (0., 12., vec![0., 1.5, 5.])
+    (-12., 12., vec![0., 1.5, 5., -3., -1.5])
   } else if path.starts_with("crystal.") && path.ends_with("theta_deg") {
     (0., 90., vec![0., 45., 90., 180., -0.0])
   } else if path.ends_with("theta_deg") {
@@ -367,7 +442,7 @@ pub fn run(args: &[String]) {
         continue;
       }
     };
-    let with_jsi = k < 4 && !fixed_nc;
+    let with_jsi = true;
     let swept_jsi: Vec<f64> = if with_jsi {
       let b0 = base.clone();
       guarded(move || SPDCIter::try_new(b0, p1, p2, steps).map(|i| i.jsi_values(Integrator::default())).unwrap_or_default()).unwrap_or_default()
@@ -413,8 +488,15 @@ pub fn run(args: &[String]) {
         }
         _ => Value::Null,
       };
+      let b2 = base.clone();
+      let fresh_json = match guarded(move || fresh_from_config(&b2, p1, v1, p2, v2)) {
+        Ok(Ok(f)) => json!({"cfg": flat_config(&f), "obs": observables(&f)}),
+        Ok(Err(e)) => json!({"err": e}),
+        Err(e) => json!({"panic": e}),
+      };
       items.push(json!({"j": j, "v1": fx(v1), "v2": fx(v2), "cfg": flat_config(s), "indiv_cfg": icfg, "indiv_jsi": ijsi, "identical": same,
-        "scratch_cfg": scratch_cfg, "read": readbacks(s),
+        "scratch_cfg": scratch_cfg, "read": readbacks(s), "obs": observables(s),
+        "fresh": fresh_json,
         "jsi": if with_jsi && j < swept_jsi.len() { fx(swept_jsi[j]) } else { Value::Null },
         "jsi_norm": if j < swept_norm.len() { fx(swept_norm[j]) } else { Value::Null }}));
     }
